@@ -1,42 +1,18 @@
 #!/bin/bash
-# Builds the C19 harness against /repo's working tree with the sync shim injected through -overlay (/repo untouched).
+# Builds the C19 harness against /repo's working tree with the sync shims injected through -overlay (/repo untouched).
 # usage: build.sh <output binary>
 set -eu
 out=$(readlink -f "$1" 2>/dev/null || echo "$1")
 case "$out" in /*) ;; *) out="$PWD/$out";; esac
 V=/verif
 export GOFLAGS=-mod=mod GOPROXY=off GOSUMDB=off GOTOOLCHAIN=local
-mkdir -p $V/.work
+mkdir -p $V/.work $V/.bin
 W=$(mktemp -d $V/.work/c19.XXXXXX)
 trap 'rm -rf "$W"' EXIT
-mkdir -p "$W/uu"
-json="$W/overlay.json"
-{
-  echo '{"Replace":{'
-  first=1
-  nsync=0
-  for f in /repo/uu/*.go; do
-    case "$f" in *_test.go) continue;; esac
-    if grep -qE '^\s*(import\s+)?(\w+\s+)?"sync(/atomic)?"' "$f"; then
-      nsync=$((nsync+1))
-      sed -E -e 's#^(\s*(import\s+)?)"sync"#\1sync "go.lstv.dev/util/verifsync"#' -e 's#^(\s*(import\s+)?)"sync/atomic"#\1atomic "go.lstv.dev/util/verifsync/atomic"#' -e 's#^(\s*(import\s+)?)(\w+)\s+"sync/atomic"#\1\3 "go.lstv.dev/util/verifsync/atomic"#' -e 's#^(\s*(import\s+)?)(\w+)\s+"sync"#\1\3 "go.lstv.dev/util/verifsync"#' "$f" > "$W/uu/$(basename "$f")"
-      [ $first = 1 ] || echo ','
-      first=0
-      printf '"%s":"%s"' "$f" "$W/uu/$(basename "$f")"
-    fi
-  done
-  [ $first = 1 ] || echo ','
-  printf '"/repo/uu/verif_hooks.go":"%s",\n' "$W/uu/verif_hooks.go"
-  printf '"/repo/verifsync/atomic/atomic.go":"%s",\n' "$V/overlay/verifsync/atomic/atomic.go"
-  printf '"/repo/verifsync/sched.go":"%s"\n' "$V/overlay/verifsync/sched.go"
-  echo '}}'
-} > "$json"
-if [ "$nsync" = 0 ]; then echo "harness cannot bind: no file of package uu imports \"sync\" or \"sync/atomic\" any more (channels and other mechanisms are not intercepted)" >&2; exit 3; fi
-# hooks file: the mutex is re-created only if the tree still has it; the generator variable is required
-if ! grep -qE '^\s*random\s*=' /repo/uu/*.go; then echo "harness cannot bind: package uu has no package-level variable 'random' any more" >&2; exit 3; fi
-if grep -qE '^\s*randomMutex\s*=\s*sync\.Mutex' /repo/uu/*.go; then cp "$V/overlay/uu/verif_hooks.go" "$W/uu/verif_hooks.go"; else sed -e '/randomMutex = sync.Mutex{}/d' -e '/verifsync"/d' "$V/overlay/uu/verif_hooks.go" > "$W/uu/verif_hooks.go"; fi
 cd $V
-go build -tags verif -overlay "$json" -o "$out" ./checks/c19
+go build -o $V/.bin/c19gen ./checks/c19/gen
+$V/.bin/c19gen "$W" "$W/overlay.json"
+go build -tags verif -overlay "$W/overlay.json" -o "$out" ./checks/c19
 # free-running race-detector supplement (plain build, real sync, no overlay)
 if [ "${C19_RACE:-1}" = 1 ]; then
   go build -race -o "$out.race" ./checks/x19race
